@@ -136,6 +136,47 @@ def run(ctx):
                     cases.append(("JDesCompact97 %s %s %s %s %s %s" % (J.c_table(rows), c_hex(tok), J.c_keysrc(pub_key), c_opt(None if safe else pl, c_hex),
                                                                       J.c_algs([alg]), J.c_compact_result(r)),
                                   {"fn": "deserialize_compact97", "what": alg}))
+        # ---------- reference -> joserfc, JSON: "alg" placement (protected / unprotected only) x b64
+        for alg in (J.ALL_ALGS if not ctx.quick else ["HS256", "ES256", "RS256", "EdDSA"]):
+            kn = J.ALG_KEYS[alg][0]
+            prv_jwk, pub_jwk = jwks(kn)
+            pub_key = J.pubkey_of(K[kn])
+            for b64 in (None, True, False):
+                b64h = {} if b64 is None else {"b64": b64, "crit": ["b64"]}
+                shapes = [("alg-protected", dict({"alg": alg}, **b64h), {"kid": kn}),
+                          ("alg-protected-no-unprotected", dict({"alg": alg, "typ": "JWT"}, **b64h), None),
+                          ("alg-unprotected", dict({"typ": "JWT"}, **b64h), {"alg": alg, "kid": kn})]
+                if b64 is None:
+                    shapes.append(("alg-unprotected-no-protected", None, {"alg": alg}))
+                for sname, prot, unprot in shapes:
+                    pl = rng.choice([b"placement", b"a.b", "h\u00e9".encode()])
+                    octets = None if prot is None else REF.header_spellings(prot, rng)[rng.randrange(3)]
+                    val = REF.sign_flattened(alg, prv_jwk, octets, unprot, pl, b64=(b64 is not False))
+                    merged = dict(prot or {})
+                    merged.update(unprot or {})
+                    entries = [("rfc7797.deserialize_json", r97.deserialize_json)] + ([("jws.deserialize_json", jws.deserialize_json)] if b64 is None else [])
+                    for ename, fn in entries:
+                        ctx.note_case(("alg-placement", alg, b64, sname, ename, pl))
+                        note("alg-placement:%s:b64=%s" % (sname, b64))
+                        rec.take()
+                        r = call(fn, copy.deepcopy(val), pub_key, [alg])
+                        rows, _ = rec.take()
+                        if ename.startswith("rfc7797"):
+                            cases.append(("JDesJson97 %s %s %s %s %s %s" % (J.c_table(rows), c_bool(fixed), J.c_jval(val), J.c_keysrc(pub_key), J.c_algs([alg]), J.c_json_result(r)),
+                                          {"fn": "deserialize_json97", "what": "algplace-%s:%s" % (alg, sname)}))
+                        if r[0] != "ok" or r[1].payload != pl or r[1].members[0].headers() != merged or (r[1].members[0].protected or None) != (prot or None):
+                            ctx.violation({"kind": "joserfc-rejects-reference-token", "alg": alg, "ser": "flat:" + sname, "b64": b64},
+                                          "%s of a reference-signed flattened JWS (%s, alg %s, b64=%s): %r" % (
+                                              ename, alg, sname, b64, r[1] if r[0] != "ok" else (r[1].members[0].headers(), r[1].payload)),
+                                          {"dir": "reference->joserfc", "value": val, "key": pub_jwk, "alg": alg})
+                    if b64 is None:
+                        gen = REF.sign_general([(alg, prv_jwk, octets, unprot), (alg, prv_jwk, octets, unprot)], pl)
+                        rg_ = call(jws.deserialize_json, copy.deepcopy(gen), pub_key, [alg])
+                        rec.take()
+                        if rg_[0] != "ok" or rg_[1].payload != pl or any(mm.headers() != merged for mm in rg_[1].members):
+                            ctx.violation({"kind": "joserfc-rejects-reference-token", "alg": alg, "ser": "general:" + sname},
+                                          "jws.deserialize_json of a reference-signed general JWS (alg %s): %r" % (sname, rg_[1]), {"dir": "reference->joserfc", "value": gen, "alg": alg})
+
         # ---------- PS* parameters on signatures made with pyca directly: joserfc and the reference must agree
         from cryptography.hazmat.primitives.asymmetric import padding as _pad
         from cryptography.hazmat.primitives import hashes as _hs0
@@ -294,7 +335,9 @@ def run(ctx):
                 members = [("protected-only", {"protected": dict(base)}),
                            ("both", {"protected": dict(base), "header": {"kid": kn, "cty": "a/b"}}),
                            ("both-kid-protected", {"protected": dict(base, kid=kn), "header": {"typ": "x"}}),
-                           ("unprotected-only", {"header": dict(base, kid=kn)})]
+                           ("unprotected-only", {"header": dict(base, kid=kn)}),
+                           ("empty-protected", {"protected": {}, "header": dict(base, kid=kn)}),
+                           ("none-protected", {"protected": None, "header": dict(base)})]
                 pl = rng.choice([b"hello", b"a.b", "h\u00e9llo".encode(), b"urlsafe_9"])
                 # compact
                 note("emit:compact:b64=%s" % b64)
@@ -338,7 +381,7 @@ def run(ctx):
                         if out.get("payload") != want_p:
                             ctx.violation({"kind": "emitted-segment", "ser": entry, "b64": b64}, "payload member %r, expected %r" % (out.get("payload"), want_p), dict(rp, value=out))
                         # the reference (RFC 7515 7.2.1: protected and unprotected names disjoint) verifies it
-                        if mname == "unprotected-only" and b64 is not None:
+                        if mname in ("unprotected-only", "empty-protected", "none-protected") and b64 is not None:
                             continue    # b64 outside any protected header: the recorded finding C01-unprotected-b64-no-protected-header
                         v = call(REF.verify_json, out, lambda i, hdr: pub_jwk)
                         if v[0] != "ok" or v[1][1] != pl:
